@@ -82,7 +82,11 @@ def ev_scenarios(rng, sid):
     blocks = []; kind_of = {}
     kinds = ["reopen-write", "err-write", "del-other", "oneshot-write", "persist", "oneshot", "dispatch", "write", "timer1", "timerP", "timerD", "eof", "malformed", "foreign-disable", "redel"]
     rng.shuffle(kinds)
-    for kind in kinds[:rng.randint(4, 8)]:
+    kinds = kinds[:rng.randint(4, 8)]
+    # registrations on the pool's VIRTUAL thread (owner = n): every worker polls that queue, the callback runs on whichever
+    # worker finds it ready; a disabled one stays silent also when the descriptor hangs up
+    kinds.insert(rng.randrange(len(kinds) + 1), rng.choice(["pvt-disabled-hup", "pvt-disabled-hup", "pvt-oneshot"]))
+    for kind in kinds:
         o = rng.randrange(n); x = nu(); f = rng.random() < 0.5
         if kind in ("persist", "write", "timerP", "eof"):
             f = False    # the callback of these objects disables itself: a concurrent foreign call on the same object would be a data race of the scenario
@@ -136,6 +140,12 @@ def ev_scenarios(rng, sid):
         elif kind == "foreign-disable":
             B += ["m evnew %d 0 0 0 1" % x, "m evadd %d %d 0 0 0 0" % (x, o), "m mkready %d" % x, "m evwait %d 1 3000" % x,
                   "m evdis %d %d 0 0 0 0" % (x, o), "Q", "m evcount %d" % x, "m evdel %d %d 0 0 0 0" % (x, o)]
+        elif kind == "pvt-disabled-hup":
+            B += ["m evnew %d 3 0 0 0" % x, "m evadd %d %d 0 0 0 0" % (x, n), "m evdis %d %d 0 0 0 0" % (x, n), "Q", "m evcount %d" % x,
+                  "m peerclose %d" % x, "Q", "m sleep 15000", "m evcount %d" % x, "m evdel %d %d 0 0 0 0" % (x, n)]
+        elif kind == "pvt-oneshot":
+            B += ["m evnew %d 0 0 0 1" % x, "m evadd %d %d 0 1 0 0" % (x, n), "m mkready %d" % x, "m evwait %d 1 3000" % x, "Q", "m evcount %d" % x,
+                  "m mkready %d" % x, "Q", "m evcount %d" % x]
         elif kind == "redel":
             B += ["m evnew %d 0 0 0 0" % x, by(o, "evadd %d %d 0 0 0 0" % (x, o), f), by(o, "evdel %d %d 0 0 0 0" % (x, o), f),
                   "m mkready %d" % x, "Q", "m evcount %d" % x, by(o, "evdel %d %d 0 0 0 0" % (x, o), f)]
